@@ -50,23 +50,31 @@ $(B)/sim/%.o: sim/%.cpp sim/sim.h sim/internal.h sim/prng.h
 	@mkdir -p $(dir $@)
 	$(CXX) -std=c++14 $(COMMON) $(SIMSAN) -c $< -o $@
 
+# One relocatable object whose template instantiations are local, so that the
+# linker can never merge libsim's (uninstrumented) std:: code with tbox's.
+$(B)/sim/libsim.o: $(SIM_OBJS)
+	ld -r --force-group-allocation -o $@.tmp.o $(SIM_OBJS)
+	objcopy --wildcard --keep-global-symbol='_ZN3sim*' --keep-global-symbol='_ZNK3sim*' --keep-global-symbol='__wrap_*' \
+	  --keep-global-symbol='__*san_default_options' $@.tmp.o $@
+	@rm -f $@.tmp.o
+
 # ---------------------------------------------------------------- harnesses
 HARNESSES := $(patsubst harness/%.cpp,%,$(wildcard harness/c*.cpp))
 $(B)/harness/%.o: harness/%.cpp sim/sim.h sim/prng.h $(wildcard harness/*.h)
 	@mkdir -p $(dir $@)
 	$(CXX) -std=c++14 $(COMMON) $(SAN) -DMODULE_ID='"verif"' -Isim -MMD -MP -c $< -o $@
 
-$(B)/bin/%: $(B)/harness/%.o $(SIM_OBJS) $(B)/libtbox.a
+$(B)/bin/%: $(B)/harness/%.o $(B)/sim/libsim.o $(B)/libtbox.a
 	@mkdir -p $(dir $@)
-	$(CXX) $(SAN) -o $@ $< $(SIM_OBJS) -Wl,--start-group $(B)/libtbox.a -Wl,--end-group $(WRAPFLAGS) -static-libstdc++ -pthread -ldl
+	$(CXX) $(SAN) -o $@ $< $(B)/sim/libsim.o -Wl,--start-group $(B)/libtbox.a -Wl,--end-group $(WRAPFLAGS) -static-libstdc++ -pthread -ldl
 
 .PHONY: all harness lib clean
 all: $(foreach h,$(HARNESSES),$(B)/bin/$(h))
 harness: $(B)/bin/$(H)
-lib: $(B)/libtbox.a $(SIM_OBJS)
+lib: $(B)/libtbox.a $(B)/sim/libsim.o
 clean:
 	rm -rf build
 
-.SECONDARY:
+.PRECIOUS: $(B)/harness/%.o $(B)/sim/%.o $(B)/tbox/%.o
 -include $(ALL_TBOX_OBJS:.o=.d)
 -include $(wildcard $(B)/harness/*.d)
